@@ -654,6 +654,9 @@ FLOORS_QUICK = {
     "outcome:ok": 1450, "outcome:SchemaError": 850,
     "outcome:SchemaErrors": 880, "custom_method_called:check": 4500,
     "class_depth:3": 180,
+    "class:inherits-explicitly-named-check": 130,
+    "class:check-designates-several-fieldinfos": 9,
+    "class:regex-check-and-non-str-column-name": 20,
 }
 
 
